@@ -650,7 +650,13 @@ type connectWireError struct {
 }
 
 func (e *connectWireError) toConnectError() *connect.Error {
-	cerr := connect.NewError(e.Code, errors.New(e.Message))
+	code := e.Code
+	if code == 0 {
+		// An error whose code is missing (or is zero) is still an error: code
+		// zero would be rendered as success for gRPC and gRPC-Web clients.
+		code = connect.CodeUnknown
+	}
+	cerr := connect.NewError(code, errors.New(e.Message))
 	for _, detail := range e.Details {
 		detailData, err := base64.RawStdEncoding.DecodeString(detail.Value)
 		if err != nil {
